@@ -50,6 +50,19 @@ func runC13(c *Ctx, pr *PropertyRun) {
 	// numeric request elements are unsigned: the decoder refuses a negative value
 	unsignedElementsRule(c, pr, "C13")
 	typedNilRule(c, pr, "C13")
+	// enumerated attribute values outside the RFC's lists are refused by the
+	// decoders — and what is stored is the value that was tested (shared
+	// with C08/C09.enums)
+	{
+		en := NewRule("C13", "C13.enums", "the decoders of enumerated request attributes (negate-condition, test, match-type) accept exactly the RFC's values, store the accepted value itself and refuse everything else (E2)")
+		en.Exhaustive = true
+		pr.Rules = append(pr.Rules, en)
+		enumRule(c, en, pkgCaldav, "negateCondition", map[string]string{"yes": "true", "no": "false"})
+		enumRule(c, en, pkgCarddav, "negateCondition", map[string]string{"yes": "true", "no": "false"})
+		enumRule(c, en, pkgCarddav, "filterTest", map[string]string{"anyof": "anyof", "allof": "allof"})
+		enumRule(c, en, pkgCarddav, "matchType", map[string]string{"equals": "equals", "contains": "contains", "starts-with": "starts-with", "ends-with": "ends-with"})
+		enumTypedAttributesRule(c, en)
+	}
 
 	// a request path or Destination that does not denote a resource (NUL,
 	// not absolute after cleaning) is refused with 4xx by the sanitiser: its
